@@ -362,6 +362,73 @@ func checkLimits(v *view, head *blk, lim limits) *finding {
 	return nil
 }
 
+// exempt: the transaction does not take part in price eviction. That is every transaction of
+// a local sender; the pool additionally flags the transaction itself when a local submission
+// replaced a pending transaction without the sender being recorded as local (DESIGN
+// calibration: an account becomes local only through the enqueue path).
+func (v *view) exempt(t *txrec) bool { return v.locals[t.from.addr] || v.localTx[t.hash] }
+
+// slot invariant: must hold after every call. The pool admits a transaction only after it has
+// made room for all of its slots (one slot per started 32 KB), so the slots of everything it
+// holds never exceed GlobalSlots+GlobalQueue. The one exception the rules make: a local
+// submission is admitted by force after EVERY non-exempt transaction has been discarded, so a
+// pool above the limit holds exempt transactions only.
+func checkSlots(v *view, lim limits) *finding {
+	limit := int(lim.GlobalSlots + lim.GlobalQueue)
+	if v.slots <= limit {
+		return nil
+	}
+	for _, m := range []map[common.Address][]*txrec{v.pending, v.queued} {
+		for _, l := range m {
+			for _, t := range l {
+				if !v.exempt(t) {
+					return &finding{"slot-limit-exceeded", fmt.Sprintf("the pool holds %d slots, limit GlobalSlots+GlobalQueue = %d, and not only transactions of local senders: %v (%d slots) is not exempt", v.slots, limit, t, t.slots())}
+				}
+			}
+		}
+	}
+	return nil
+}
+
+// fullVerdict is the model's admission decision for an individually valid transaction that
+// arrives when the pool has no room for its slots.
+//
+//	must = "under-price-limit": it pays no more than the cheapest non-exempt transaction: refused as underpriced
+//	must = "pool-full":         discarding every non-exempt transaction would not free the slots it needs
+//	must = "":                  room is made (cheapest non-exempt first); it is then judged like any other
+//	                            submission (fresh nonce slot: accepted; occupied: price-bump rule)
+type fullVerdict struct {
+	must        string
+	remotes     int      // non-exempt transactions in the pool
+	remoteSlots int      // their slots
+	cheapest    *big.Int // their lowest price (nil when there is none)
+}
+
+// fullPoolVerdict: content is everything the pool holds at that instant, need the number of
+// slots that have to be freed. A local submission is never refused for its price and is
+// admitted by force.
+func fullPoolVerdict(t *txrec, isLocal bool, content map[slotKey]*txrec, exempt func(*txrec) bool, need int) fullVerdict {
+	var fv fullVerdict
+	for _, o := range content {
+		if exempt(o) {
+			continue
+		}
+		fv.remotes++
+		fv.remoteSlots += o.slots()
+		if fv.cheapest == nil || o.price.Cmp(fv.cheapest) < 0 {
+			fv.cheapest = o.price
+		}
+	}
+	switch {
+	case isLocal:
+	case fv.remotes > 0 && t.price.Cmp(fv.cheapest) <= 0:
+		fv.must = rjPrice
+	case fv.remoteSlots < need:
+		fv.must = "pool-full"
+	}
+	return fv
+}
+
 // universe of one operation: everything that could be in the pool at some instant of it.
 type universe struct {
 	perAcct map[common.Address]int
